@@ -1,6 +1,10 @@
-(* C20/Run.v -- entry point of the correspondence check. *)
-From Coq Require Import ZArith List.
-From AK Require Export Common.Sx Common.Err C20.Model.
+(* C20/Run.v -- entry point of the correspondence check.  Every case is evaluated twice:
+   by the hand-written model (Model.v) and by the functions translated from the current
+   source (gen/C20_Translated.v through TransInst.v); [run] prints the observation when
+   the two agree and (99 model translated) otherwise, so that a line equal to the
+   implementation's observation means that BOTH gave it. *)
+From Coq Require Import ZArith List Bool.
+From AK Require Export Common.Sx Common.Err C20.Model C20.PyLib C20.TransInst.
 Import ListNotations.
 
 Inductive case :=
@@ -43,7 +47,7 @@ Fixpoint first_diff (i : Z) (model seen : list outcome) : sx :=
   | [], _ :: _ => SL [SZ 0; SZ i]
   end.
 
-Definition run (c : case) : sx :=
+Definition run_model (c : case) : sx :=
   match c with
   | ToShort u => sx_str (uuid_to_short_str u)
   | FromShort a => sx_res SZ (uuid_from_short_str a)
@@ -51,3 +55,30 @@ Definition run (c : case) : sx :=
   | Seq l => sx_list sx_outcome (eval_seq l)
   | SeqCmp l seen => first_diff 0 (eval_seq l) seen
   end.
+
+Definition run_translated (c : case) : sx :=
+  match c with
+  | ToShort u => sx_outcome (tr_eval_call (CToShort u))
+  | FromShort a => sx_res SZ (tr_from_short a)
+  | FromStr std s => sx_res SZ (tr_from_str std s)
+  | Seq l => sx_list sx_outcome (tr_eval_seq l)
+  | SeqCmp l seen => first_diff 0 (tr_eval_seq l) seen
+  end.
+
+Fixpoint sx_eqb (a b : sx) {struct a} : bool :=
+  match a, b with
+  | SZ x, SZ y => Z.eqb x y
+  | SL l, SL m =>
+      (fix go (l m : list sx) {struct l} : bool :=
+         match l, m with
+         | [], [] => true
+         | x :: l', y :: m' => sx_eqb x y && go l' m'
+         | _, _ => false
+         end) l m
+  | _, _ => false
+  end.
+
+Definition run (c : case) : sx :=
+  let m := run_model c in
+  let t := run_translated c in
+  if sx_eqb m t then m else SL [SZ 99; m; t].
